@@ -211,6 +211,7 @@ class DirectedWeightedGraph : private LabeledDirectedGraph<EdgeWeight> {
         auto j = successors.begin();
         while (j != successors.end()) {
             totalWeight -= getEdgeLabel(vertex, *j, false);
+            edgeLabels.erase({vertex, *j});
             successors.erase(j++);
             edgeNumber--;
         }
